@@ -929,6 +929,130 @@ func genSQLGroupByJoin(rng *rand.Rand, id string) *Case {
 	}
 }
 
+// ---- C18-only: TVFs and nodes on sources that ALREADY carry watermarks -----------------------------------
+
+func mdwSQL(src string, d int, alias string) string {
+	return fmt.Sprintf("SELECT * FROM max_diff_watermark(source=>TABLE(%s), max_diff=>INTERVAL %d SECONDS, time_field=>DESCRIPTOR(t)) %s", src, d, alias)
+}
+
+// fixedWatermarkedSource: scripts in which the source's own watermark runs ahead of, level with and
+// behind the one max_diff_watermark derives (max_diff 3 s): own watermark, then an upstream
+// watermark above it, then a new maximum record whose derived watermark lies below the upstream one.
+func fixedWatermarkedSource(idx int) []nodeh.Event {
+	type st struct {
+		wm bool
+		t  int
+	}
+	scripts := [][]st{
+		{{false, 8}, {true, 9}, {false, 10}, {true, 11}, {false, 12}, {false, 14}},          // ahead: own 5, src 9, own 7, src 11, own 9, own 11
+		{{false, 8}, {true, 5}, {false, 9}, {true, 6}, {false, 10}, {true, 7}},              // level with the derived ones
+		{{false, 8}, {true, 2}, {false, 9}, {true, 3}, {false, 12}, {true, 4}, {false, 13}}, // behind
+		{{false, 4}, {false, 6}, {true, 5}, {false, 6}, {false, 7}, {true, 6}, {false, 9}},  // mixed, equal times
+	}
+	if idx < 0 || idx >= len(scripts) {
+		return nil
+	}
+	var evs []nodeh.Event
+	for i, s := range scripts[idx] {
+		if s.wm {
+			evs = append(evs, nodeh.WM(TS(s.t)))
+		} else {
+			evs = append(evs, nodeh.Rec([]octosql.Value{octosql.NewTime(TS(s.t)), str(keys[i%2]), num(i)}, false, TS(s.t)))
+		}
+	}
+	return evs
+}
+
+// watermarkedInput: a timed, watermarked changelog without late records whose watermarks follow the
+// record times closely (so that they run ahead of max_diff_watermark's for max_diff >= 1).
+func watermarkedInput(rng *rand.Rand) []nodeh.Event {
+	o := timedOpts(rng, poolTKV(rng))
+	o.TimeSpread = 1 + rng.Intn(3)
+	o.FinalWM = 50
+	return Gen(rng, o)
+}
+
+// genSQLMaxDiffOverWatermarked: max_diff_watermark over a table that is itself watermarked.
+func genSQLMaxDiffOverWatermarked(rng *rand.Rand, id string) *Case {
+	d := rng.Intn(5)
+	in := fixedWatermarkedSource(indexOfID(id))
+	if in != nil {
+		d = 3
+	} else {
+		in = watermarkedInput(rng)
+	}
+	return &Case{
+		ID: id, Kind: "sql/mdw_over_watermarked", Variant: fmt.Sprintf("max_diff=%ds", d),
+		Inputs: [][]nodeh.Event{in},
+		SQL:    mdwSQL("m.t", d, "x"),
+		Tables: []TableSpec{{Name: "t", Fields: tkvFields("v"), TimeField: 0, Input: 0}},
+		Meta:   Meta{KeyTimeIdx: -1, Pipeline: "watermarked>max_diff_watermark"},
+	}
+}
+
+// unorderedTimes: an unwatermarked table whose time column is in random order (zero event times).
+func unorderedTimes(rng *rand.Rand) []nodeh.Event {
+	n := 5 + rng.Intn(40)
+	evs := make([]nodeh.Event, n)
+	cur := 5
+	for i := range evs {
+		cur += rng.Intn(5) - 1
+		if cur < 1 {
+			cur = 1
+		}
+		t := cur
+		if rng.Intn(5) == 0 {
+			t = 1 + rng.Intn(cur)
+		}
+		evs[i] = nodeh.Rec([]octosql.Value{octosql.NewTime(TS(t)), str(keys[rng.Intn(3)]), intOrNull(rng, 10, 3)}, false, time.Time{})
+	}
+	return evs
+}
+
+// genSQLMaxDiffNested: max_diff_watermark over max_diff_watermark; the inner one is tighter (its
+// watermarks run ahead of the outer one's) or looser.
+func genSQLMaxDiffNested(rng *rand.Rand, id string) *Case {
+	inner, outer := rng.Intn(4), rng.Intn(4)
+	if indexOfID(id)%2 == 0 {
+		inner, outer = rng.Intn(2), 2+rng.Intn(3) // tighter inside
+	}
+	return &Case{
+		ID: id, Kind: "sql/mdw_nested", Variant: fmt.Sprintf("inner=%ds outer=%ds", inner, outer),
+		Inputs: [][]nodeh.Event{unorderedTimes(rng)},
+		SQL:    "WITH w AS (" + mdwSQL("m.t", inner, "x") + ") " + mdwSQL("w", outer, "y"),
+		Tables: []TableSpec{{Name: "t", Fields: tkvFields("v"), TimeField: -1, Input: 0}},
+		Meta:   Meta{KeyTimeIdx: -1, Pipeline: "max_diff_watermark>max_diff_watermark"},
+	}
+}
+
+// genSQLStackGroupBy: watermarked table -> max_diff_watermark -> tumble -> group-by.
+func genSQLStackGroupBy(rng *rand.Rand, id string) *Case {
+	d := 1 + rng.Intn(4)
+	w := 2 + rng.Intn(3)
+	trig := randomTrigger(rng, []string{"watermark", "watermark", "multi", "counting"}[rng.Intn(4)], true)
+	return &Case{
+		ID: id, Kind: "sql/watermarked>mdw>tumble>group_by", Variant: fmt.Sprintf("max_diff=%ds window=%ds %s", d, w, trig),
+		Inputs: [][]nodeh.Event{watermarkedInput(rng)},
+		SQL: "WITH w AS (" + mdwSQL("m.t", d, "x") + "), tb AS (SELECT * FROM tumble(source=>TABLE(w), window_length=>INTERVAL " + fmt.Sprint(w) +
+			" SECONDS) y) SELECT window_end, k, COUNT(*) AS c FROM tb GROUP BY window_end, k TRIGGER " + trig.sql(),
+		Tables: []TableSpec{{Name: "t", Fields: tkvFields("v"), TimeField: 0, Input: 0}},
+		Meta:   Meta{CTGB: true, KeyTimeIdx: 0, Trigger: trig.String(), Pipeline: "watermarked>max_diff_watermark>tumble>group_by"},
+	}
+}
+
+// genSQLStackJoin: two watermarked tables, each under its own max_diff_watermark, joined.
+func genSQLStackJoin(rng *rand.Rand, id string) *Case {
+	da, db := rng.Intn(4), rng.Intn(4)
+	return &Case{
+		ID: id, Kind: "sql/watermarked>mdw>join", Variant: fmt.Sprintf("max_diff a=%ds b=%ds", da, db),
+		Inputs: joinInputs(rng, true),
+		SQL: "WITH wa AS (" + mdwSQL("m.a", da, "x") + "), wb AS (" + mdwSQL("m.b", db, "y") +
+			") SELECT a.t AS t, a.k AS k, a.v AS v, b.w AS w FROM wa a JOIN wb b ON a.k = b.k",
+		Tables: timedJoinTables(),
+		Meta:   Meta{TwoInput: true, KeyTimeIdx: -1, Foreign: true, Pipeline: "watermarked>max_diff_watermark>join"},
+	}
+}
+
 // Kinds returns the catalogue. C15 uses the kinds with C15 == true; C18 uses all of them.
 func Kinds() []Kind {
 	return []Kind{
@@ -961,5 +1085,9 @@ func Kinds() []Kind {
 		{"sql/tumble>group_by", true, genSQLTumbleGroupBy},
 		{"sql/join>group_by", true, genSQLJoinGroupBy},
 		{"sql/group_by>join", true, genSQLGroupByJoin},
+		{"sql/mdw_over_watermarked", false, genSQLMaxDiffOverWatermarked},
+		{"sql/mdw_nested", false, genSQLMaxDiffNested},
+		{"sql/watermarked>mdw>tumble>group_by", false, genSQLStackGroupBy},
+		{"sql/watermarked>mdw>join", false, genSQLStackJoin},
 	}
 }
